@@ -50,7 +50,7 @@ Definition ev_ok (e : ev) : bool :=
   | EvExit k => k <? 256
   | EvKill s _ => (1 <=? s) && (s <=? 126)
   | EvStop s => s <? 256
-  | EvCont => true
+  | EvCont => false      (* not in the judged domain: the code does not pass WCONTINUED, the kernel then never reports it *)
   end.
 
 (* the code's view of a word, used only to state the partition theorem *)
